@@ -516,17 +516,38 @@ async def lookup_paths_agree_inside_a_component():
                 seen["awaited"] = await get_resource(Registry)
             seen["waited"] = scope.cancelled_caught
             seen["int"] = await get_resource(int, optional=True)
+            # ... and for what was added only after the tree had been created (by this component itself), and for a
+            # pair served by a factory: optional or not, synchronous or not, one pair is one object
+            late = Late()
+            ctx.add_resource(late)
+            seen["late"] = get_resource_nowait(Late, optional=True) is late and (await get_resource(Late, optional=True)) is late
+            m = [await get_resource(Made, optional=True), get_resource_nowait(Made), get_resource_nowait(Made, optional=True),
+                 await get_resource(Made)]
+            seen["made"] = m[0] is not None and all(x is m[0] for x in m) and len(made) == 1
+
+    class Late:
+        pass
+
+    class Made:
+        pass
+    made = []
+
+    def make():
+        made.append(1)
+        return Made()
     reg = Registry()
     async with Context() as ctx:
         ctx.add_resource(reg)
         ctx.add_resource(0)
+        ctx.add_resource_factory(make, types=[Made])
         try:
             await start_component(Comp, {}, timeout=3)
         except BaseException as e:  # noqa
             seen["error"] = repr(e)[:120]
     ok = seen.get("nowait") is reg and seen.get("all") == [reg] and seen.get("injected") is reg \
-        and seen.get("awaited") is reg and seen.get("waited") is False and seen.get("int") == 0 and "error" not in seen
-    return ok, f"{ {k: (v if k in ('waited', 'error', 'int') else type(v).__name__) for k, v in seen.items()} }"
+        and seen.get("awaited") is reg and seen.get("waited") is False and seen.get("int") == 0 and "error" not in seen \
+        and seen.get("late") is True and seen.get("made") is True
+    return ok, f"{ {k: (v if k in ('waited', 'error', 'int', 'late', 'made') else type(v).__name__) for k, v in seen.items()} }"
 
 
 async def leaving_a_context_with_an_explicit_parent():
@@ -2166,7 +2187,197 @@ async def injected_coroutine_in_a_component_waits_like_the_explicit_lookup():
     return ok, f"error={err}, got={ {k: (v if v is None else type(v).__name__) for k, v in got.items()} }"
 
 
-SCENARIOS = {f.__name__: f for f in (injected_coroutine_in_a_component_waits_like_the_explicit_lookup, same_configuration_object_started_twice, injected_lookups_happen_in_signature_order, closing_anothers_context_leaves_the_closers_own_alone, lookup_made_inside_awaited_after_the_block_is_refused, overridden_default_types_need_not_exist, queued_event_keeps_its_source, failed_adds_of_unusual_shapes_change_nothing, partly_shadowed_factory_releases_its_waiter, refused_resource_of_a_failed_start_leaves_no_callback, registration_during_a_service_tasks_stop, annotations_mean_what_they_say, default_name_is_remapped_only_while_starting, parent_is_the_current_context_itself, refused_entry_changes_nothing, left_from_another_task_is_closed_all_the_same, factories_waiting_on_each_other_complete, nested_tree_publications_release_waiters, timeout_watches_every_tree, every_registration_of_a_component_is_torn_down, generic_alias_types_are_found_by_every_lookup, optional_injection_is_the_optional_lookup, start_value_and_failed_starts, hard_coded_kwargs_reach_the_child_as_they_are,
+async def factory_for_an_iterable_class_releases_its_waiter():
+    """C06: a request is released by a matching resource FACTORY -- also when the single type given as `types=` is a
+    class that can itself be iterated (an Enum class): the factory is registered, and announced, under that type"""
+    import enum
+    from asphalt.core import Component, add_resource_factory, get_resource, start_component
+    got = {}
+
+    class Mode(enum.Enum):
+        fast = 1
+        safe = 2
+
+    class Waiter(Component):
+        async def start(self):
+            got["mode"] = await get_resource(Mode)
+
+    class Provider(Component):
+        async def start(self):
+            await anyio.sleep(0.1)
+            add_resource_factory(lambda: Mode.safe, types=Mode)
+
+    class Root(Component):
+        def __init__(self):
+            self.add_component("waiter", Waiter)
+            self.add_component("provider", Provider)
+    err = None
+    async with Context():
+        try:
+            with anyio.fail_after(5):
+                await start_component(Root, {}, timeout=1.5)
+        except BaseException as e:  # noqa
+            err = f"{type(e).__name__}: {str(e)[:80]}"
+    return err is None and got.get("mode") is Mode.safe, f"error={err}, got={got}"
+
+
+async def component_service_task_keeps_its_teardown_action():
+    """C08: a service task is stopped AS ITS teardown_action DICTATES -- also one started by a component through its
+    view of the context: with None it is not cancelled but awaited (it ends by itself once a callback registered
+    later has told it to), a falsy callable is invoked exactly once"""
+    from asphalt.core import Component, add_teardown_callback, start_component, start_service_task
+    log = []
+
+    class FalsyStop:
+        def __init__(self, ev):
+            self.ev = ev
+
+        def __bool__(self):
+            return False
+
+        def __call__(self):
+            log.append("falsy action invoked")
+            self.ev.set()
+
+    class Comp(Component):
+        async def start(self):
+            done = anyio.Event()
+
+            async def flusher():
+                try:
+                    await done.wait()
+                    await anyio.sleep(0.02)
+                    log.append("flusher finished by itself")
+                except anyio.get_cancelled_exc_class():
+                    log.append("flusher CANCELLED")
+                    raise
+            add_teardown_callback(lambda: log.append("resource closed"))
+            await current_context().start_service_task(flusher, "flusher", teardown_action=None)
+            add_teardown_callback(done.set)
+            stop = anyio.Event()
+
+            async def second():
+                try:
+                    await stop.wait()
+                    log.append("second finished")
+                except anyio.get_cancelled_exc_class():
+                    log.append("second CANCELLED")
+                    raise
+            await start_service_task(second, "second", teardown_action=FalsyStop(stop))
+    async with Context():
+        await start_component(Comp)
+    want = ["falsy action invoked", "second finished", "flusher finished by itself", "resource closed"]
+    return log == want, f"log={log} (expected {want})"
+
+
+async def callback_registered_from_elsewhere_runs_in_its_own_context():
+    """C12: a context is still current while it is being torn down -- for every callback registered on it, also one
+    registered on it from inside a nested context (or by another task in a context of its own): when it runs,
+    current_context() is the context being torn down and a context created there takes it as its parent"""
+    seen = {}
+    async with Context() as root:
+        async with Context() as outer:
+            def cb():
+                seen["current"] = current_context() is outer
+                seen["parent_of_new"] = Context().parent is outer
+
+            async def acb():
+                seen["current_async"] = current_context() is outer
+            async with Context():
+                outer.add_teardown_callback(cb)
+                outer.add_teardown_callback(acb)
+
+            async def elsewhere():
+                async with Context():
+                    outer.add_teardown_callback(lambda: seen.__setitem__("from_task", current_context() is outer))
+            async with anyio.create_task_group() as tg:
+                tg.start_soon(elsewhere)
+        seen["restored"] = current_context() is root
+    want = {"current": True, "parent_of_new": True, "current_async": True, "from_task": True, "restored": True}
+    return seen == want, f"{seen}"
+
+
+async def task_started_on_an_outer_context_belongs_to_it():
+    """C12 (and C08): a service task runs in a child of the context IT WAS STARTED ON -- also when the call is made
+    from inside a context nested below that one: the task's context has that outer context as its parent, does not
+    see what the nested context holds, and the nested block can be left while the task runs on"""
+    out = {}
+    async with Context() as root:
+        release = anyio.Event()
+
+        async def task():
+            ctx = current_context()
+            out["parent_is_root"] = ctx.parent is root
+            out["sees_private"] = ctx.get_resource_nowait(A, "private", optional=True) is not None
+            await release.wait()
+        try:
+            async with Context() as request:
+                request.add_resource(A("private"), "private")
+                await root.start_service_task(task, "worker", teardown_action=release.set)
+            out["nested_left"] = "quietly"
+        except BaseException as e:  # noqa
+            out["nested_left"] = f"{type(e).__name__}: {str(e)[:60]}"
+        out["current"] = current_context() is root
+    want = {"parent_is_root": True, "sees_private": False, "nested_left": "quietly", "current": True}
+    return out == want, f"{out}"
+
+
+async def cancelled_exit_with_a_task_still_inside_is_reported():
+    """C13: leaving a context while a child entered from it is still open is reported -- also when that child is the
+    context of a service task (or of a task of a task factory) whose shutdown outlasts the CANCELLED exit of its owner"""
+    out = {}
+
+    def corruption(exc, seen=None):
+        seen = seen if seen is not None else set()
+        if exc is None or id(exc) in seen:
+            return False
+        seen.add(id(exc))
+        if isinstance(exc, RuntimeError) and "stack corruption" in str(exc):
+            return True
+        return any(corruption(x, seen) for x in list(getattr(exc, "exceptions", ())) + [exc.__cause__, exc.__context__])
+    for label in ("service", "factory"):
+        started, release = anyio.Event(), anyio.Event()
+        box = []
+
+        async def worker():
+            box.append(current_context())
+            started.set()
+            try:
+                await release.wait()
+            finally:
+                with anyio.CancelScope(shield=True):
+                    await release.wait()
+        raised = None
+        async with Context():
+            with anyio.CancelScope() as scope:
+                try:
+                    async with Context() as ctx:
+                        if label == "factory":
+                            factory = await ctx.start_background_task_factory()
+                            await factory.start_task(worker, "worker")
+                        else:
+                            await ctx.start_service_task(worker, "worker")
+                        await started.wait()
+                        scope.cancel()
+                        await anyio.sleep(1)
+                except BaseException as e:  # noqa
+                    raised = e
+            child = box[0]
+            while child.parent is not None and child.parent is not ctx:
+                child = child.parent
+            out[label] = {"closed": ctx.closed, "child_open": child.parent is ctx and not child.closed,
+                          "reported": corruption(raised)}
+            release.set()
+            with anyio.CancelScope(shield=True):
+                for _ in range(200):
+                    if child.closed and box[0].closed:
+                        break
+                    await anyio.sleep(0.005)
+    ok = all(v == {"closed": True, "child_open": True, "reported": True} for v in out.values())
+    return ok, f"{out}"
+
+
+SCENARIOS = {f.__name__: f for f in (factory_for_an_iterable_class_releases_its_waiter, component_service_task_keeps_its_teardown_action, callback_registered_from_elsewhere_runs_in_its_own_context, task_started_on_an_outer_context_belongs_to_it, cancelled_exit_with_a_task_still_inside_is_reported, injected_coroutine_in_a_component_waits_like_the_explicit_lookup, same_configuration_object_started_twice, injected_lookups_happen_in_signature_order, closing_anothers_context_leaves_the_closers_own_alone, lookup_made_inside_awaited_after_the_block_is_refused, overridden_default_types_need_not_exist, queued_event_keeps_its_source, failed_adds_of_unusual_shapes_change_nothing, partly_shadowed_factory_releases_its_waiter, refused_resource_of_a_failed_start_leaves_no_callback, registration_during_a_service_tasks_stop, annotations_mean_what_they_say, default_name_is_remapped_only_while_starting, parent_is_the_current_context_itself, refused_entry_changes_nothing, left_from_another_task_is_closed_all_the_same, factories_waiting_on_each_other_complete, nested_tree_publications_release_waiters, timeout_watches_every_tree, every_registration_of_a_component_is_torn_down, generic_alias_types_are_found_by_every_lookup, optional_injection_is_the_optional_lookup, start_value_and_failed_starts, hard_coded_kwargs_reach_the_child_as_they_are,
                                      overriding_signal_has_its_own_event_class, second_half_runs_at_the_outer_teardown, rejected_add_registers_no_callback,
                                      wait_finished_means_completely_finished, dead_iterator_inside_its_block_disturbs_nobody,
                                      racing_lookups_generate_once, failing_factory_leaves_the_current_context_alone,
